@@ -56,6 +56,10 @@ CHECKS = {
    technique="TLA+ spec (Settings.tla: precedence cli > --config > file > default, independence of format and working directory) checked with TLC and used as generator/oracle; every ProjectSettings field x every configuration case run through ford.initialize()",
    text="TLC checks Precedence / FormatIndependent on the reference and enumerates the configuration cases (type class x {Markdown metadata, fpm.toml} x defined in file / --config / dedicated flag x working directory). The harness reads the option list and types from the ProjectSettings dataclass itself, writes each case in the format's natural typed syntax (TOML arrays, tables, booleans, integers; one item per line in metadata; multi-line strings), runs the real ford.initialize() (argv, project file, optional fpm.toml) from two working directories and compares the effective value with the winning source's value (paths anchored at the project file); unknown keys must be reported without aborting, ill-typed flag/integer values must be rejected naming the option.",
    note="The TLA+ content is the precedence table (small by nature); value conversion is decided by the replay. 61 of 85 options varied; options needing real resources or derived values are listed in the evidence. Trusted: tomllib, argparse, the renderers."),
+ "C17": dict(level="model_checking", ref="DESIGN.md 6/C17, 4.9, B.11",
+   technique="TLA+ spec (PageTree.tla: page set / order / copied files per directory features vs. the get_page_tree walk) model-checked with TLC; every enumerated page directory materialised on disk and built by FORD",
+   text="TLC checks ImplRefines, OnePagePerTitledMd, UntitledSkippedSiblingsKept and OrderedFirst over all 16,584 combinations of directory features (titled / untitled / absent pages at two levels, non-Markdown, hidden and backup files, sub-directory with or without index.md, four ordered_subpage variants, copy_subdir at both levels). Each combination is written to disk and built end to end; the HTML files under <output>/page/, the copied files and directories, the order of the navigation links, every link from every depth (crawler of C09), the |url| |page| |media| aliases and the report of untitled files are compared with Ref.",
+   note="Two directory levels; quick builds a seeded 1/24 of the combinations, thorough all. ordered_subpage entries naming missing files and project-level copy_subdir are not varied (guide silent / see DESIGN.md). Trusted: TLC, bs4, renderer."),
 }
 
 NOT_YET = {}
